@@ -63,7 +63,9 @@ def _config_child(module_name, cfg, queries, Ks, timeout_s, seed, conn, extra_mo
         res["queries"] = {}
         wit_extra = None
         pmax = [c == hi for (c, lo, hi) in w.params.values()]
-        if pmax:
+        if pmax and not cfg.get("witness_any_input"):
+            # (configurations in which the maximal input legitimately cannot complete - e.g. one worker whose quota is smaller
+            # than the number of chunks - ask for a complete correct run with ANY input length instead)
             wit_extra = z3.And(pmax)
         # 1. find K with unwind unsat (configurations with "fixed_K" decide the claim queries first and try the unwinding
         #    query once afterwards: used where refuting the unwinding query is expensive)
